@@ -21,5 +21,21 @@ if not ok:
     sys.stdout.write(log[-5000:])
     sys.exit(1)
 lib.build_model()
+# Print Assumptions output of every property file, cached next to its .vo (see lib.prove); done here in
+# parallel so that no check pays for re-running a heavy property file
+import concurrent.futures, subprocess
+props = sorted(glob.glob(os.path.join(lib.COQ, "Properties", "*.v")))
+def assumptions(f):
+    rel = os.path.relpath(f, lib.COQ)
+    p = subprocess.run(["coqc", "-Q", ".", "DepsDev", "-w", "-notation-overridden", rel], cwd=lib.COQ,
+                       stdout=subprocess.PIPE, stderr=subprocess.STDOUT, timeout=3600)
+    if p.returncode == 0:
+        open(f[:-2] + ".assumptions", "w").write(p.stdout.decode("utf-8", "replace"))
+    return rel, p.returncode
+with concurrent.futures.ThreadPoolExecutor(16) as ex:
+    bad = [r for r, rc in ex.map(assumptions, props) if rc != 0]
+if bad:
+    print("property files failing:", bad)
+    sys.exit(1)
 print("setup ok")
 PY
